@@ -155,6 +155,8 @@ def run_kind(family, kind, timeout_ms=None, config=None):
                 r2 = try_other_solvers(ob, timeout_ms)
                 if r2:
                     rec.update(r2)
+            elif ob.status == "proved" and os.environ.get("VERIF_TIER") == "thorough" and not z3.is_false(ob.goal):
+                rec["cross_check"] = cross_check(ob)
             if rec["status"].startswith("refuted") and ob.model is not None:
                 rec["model"] = str(ob.model)[:1500]
                 try:
@@ -176,6 +178,24 @@ def run_kind(family, kind, timeout_ms=None, config=None):
                 rec["replay"] = "replay-error: " + repr(e)
     out["wall_s"] = round(time.time() - t0, 3)
     return out
+
+
+def cross_check(ob, timeout_s=20):
+    """thorough tier: every VC discharged by z3 is handed to cvc5 as SMT-LIB text; a `sat` there is an engine inconsistency"""
+    import subprocess
+    import tempfile
+    txt = core.to_smt2(ob, native=False)
+    with tempfile.NamedTemporaryFile("w", suffix=".smt2", delete=False, dir=os.environ.get("VERIF_TMP", "/tmp")) as f:
+        f.write(txt)
+        path = f.name
+    try:
+        p = subprocess.run(["/usr/bin/cvc5", f"--tlimit={timeout_s * 1000}", path], capture_output=True, text=True, timeout=timeout_s + 5)
+        first = (p.stdout.strip().splitlines() or ["no-answer"])[0]
+        return first if first in ("sat", "unsat", "unknown") else "no-answer"
+    except Exception:
+        return "no-answer"
+    finally:
+        os.unlink(path)
 
 
 def try_other_solvers(ob, timeout_ms):
